@@ -93,6 +93,17 @@ ReqStringEv(ev) ==
                      IN sm.b = (IF ev.args.dom = "scalar" THEN Enc(ev.args.type, sm.c)
                                 ELSE IF ev.args.dom = "u16" THEN <<sm.c \div 256, sm.c % 256>> ELSE Utf32(sm.c))>>,
                 <<"C13.accepted_runs_are_sampled", \A i \in DOMAIN ev.obs.runs : ev.obs.runs[i].acc => Len(ev.obs.runs[i].samples) >= 1>> }
+         [] ev.op = "StringBlock" ->
+              (* the stored bytes of every accepted code point of the block, concatenated in code-point order *)
+              LET w == IF ev.args.type = "bmp" THEN 2 ELSE 4
+                  RECURSIVE Exp(_)
+                  Exp(rs) == IF rs = <<>> THEN <<>>
+                             ELSE [i \in 1..(w * (rs[1].hi - rs[1].lo + 1)) |->
+                                     LET c == rs[1].lo + ((i - 1) \div w)  k == (i - 1) % w
+                                     IN Enc(ev.args.type, c)[k + 1]] \o Exp(Tail(rs))
+              IN { <<"C13.transfer_encoding_eq", ev.obs.stored = Exp(ev.obs.ranges)>>,
+                   <<"C13.accept_iff_in_alphabet", \A c \in ev.args.lo .. ev.args.hi :
+                        (IsScalar(c) /\ InAlphabet(ev.args.type, c)) = (\E i \in DOMAIN ev.obs.ranges : ev.obs.ranges[i].lo <= c /\ c <= ev.obs.ranges[i].hi)>> }
          [] ev.op = "StringBytes" ->
               { <<"C13.byte_ctor_accepts_iff_well_formed", ev.obs.acc = WellFormedBytes(ev.args.ctor, ev.args.bytes)>>,
                 <<"C13.byte_ctor_stores_input", ev.obs.acc => ev.obs.stored = ev.args.bytes>> }
@@ -184,7 +195,7 @@ ReqOf(ev) ==
      [] ev.op = "Chain" -> ReqChain(ev.args, ev.out, ev.obs)
      [] ev.op = "Pem" -> (IF ev.out = "Ok" THEN ReqPem(ev.args, ev.obs) ELSE {<<"C14.pem_produced", FALSE>>})
      [] ev.op \in {"KeyLoad", "AlgTable"} -> ReqKeyEv(ev)
-     [] ev.op \in {"StringRuns", "StringBytes", "StringMulti", "StringPlace"} -> ReqStringEv(ev)
+     [] ev.op \in {"StringRuns", "StringBlock", "StringBytes", "StringMulti", "StringPlace"} -> ReqStringEv(ev)
      [] ev.op \in {"DnPush", "DnRemove", "DnEq", "DnEncode"} -> ReqDnEv(ev)
      [] OTHER -> {})
 
